@@ -1,6 +1,6 @@
 (* Props/Properties_C02.v -- C02: deletion removes exactly the entity's upward closure; survivors are unchanged. *)
 From Coq Require Import ZArith List Arith Bool Lia.
-From OVM Require Import Base.ListX Kernel.State Kernel.Ops Kernel.SwapInvol Kernel.Sizes Kernel.Recompute Kernel.Closure Kernel.DeferredDelete.
+From OVM Require Import Base.ListX Kernel.State Kernel.Ops Kernel.SwapInvol Kernel.Sizes Kernel.Recompute Kernel.Closure Kernel.DeferredDelete Kernel.DeleteEffects Kernel.DeleteDefs.
 Import ListNotations.
 
 (* The brute-force upward closure over the STORED DEFINITIONS of the not-deleted entities:
@@ -103,10 +103,29 @@ Proof.
 Qed.
 Print Assumptions C02_deferred_delete_vertex_keeps_counters_exact.
 
+(* immediate modes (index-shifting and swap-with-last): each delete_*_core removes exactly the victim slot of its own definition
+   array - after exchanging it with the last slot in fast mode - and changes NO definition of a lower-dimensional kind and not the
+   vertex count: survivors of the same kind keep their definitions, under the handle the slot removal gives them *)
+Theorem C02_immediate_core_removes_exactly_the_victim_slot : forall h0 s, deferred s = false ->
+  (let h := victim (nc s) h0 s in let s_ := if fast s then swap_cell_indices h0 h s else s in let s' := delete_cell_core h0 s in
+     cells s' = remove_nth h (cells s_) /\ nv s' = nv s /\ edges s' = edges s /\ faces s' = faces s /\
+     cells s_ = (if fast s then swap_nth h0 h [] (cells s) else cells s)) /\
+  (let h := victim (nf s) h0 s in let s_ := if fast s then swap_face_indices h0 h s else s in let s' := delete_face_core h0 s in
+     faces s' = remove_nth h (faces s_) /\ nv s' = nv s /\ edges s' = edges s /\
+     faces s_ = (if fast s then swap_nth h0 h [] (faces s) else faces s)) /\
+  (let h := victim (ne s) h0 s in let s_ := if fast s then swap_edge_indices h0 h s else s in let s' := delete_edge_core h0 s in
+     edges s' = remove_nth h (edges s_) /\ nv s' = nv s /\ cells s' = cells s /\
+     edges s_ = (if fast s then swap_nth h0 h (0, 0) (edges s) else edges s)).
+Proof.
+  intros h0 s D. exact (conj (delete_cell_core_defs h0 s D) (conj (delete_face_core_defs h0 s D) (delete_edge_core_defs h0 s D))).
+Qed.
+Print Assumptions C02_immediate_core_removes_exactly_the_victim_slot.
+
 (* NOT YET A THEOREM (stated, tied by lock step + the closure oracle on the real library, all four modes):
      C02_mode_independent: for ghost-identified operands the logical mesh after the same deletions is the same in immediate
      (index-shifting), fast (swap-with-last) and deferred mode, up to renumbering.  The deferred half above is proved in full;
-     the renumbering half needs the relabeling invariants of the index-shifting paths (DESIGN section 6, C02). *)
+     the slot removal of the own array is proved above for all three non-vertex cores; what is still missing is that the handle
+     CORRECTION applied to the referring higher-dimensional definitions (cache-guided or scan) is exactly the shift / transposition. *)
 
 (* non-vacuity: the two-tetrahedra state satisfies every hypothesis (checked by computation of the decidable versions) *)
 Example C02_concrete :
